@@ -145,7 +145,10 @@ impl Property for C05 {
             ctx.mark(&json!({"stream": hex(bytes)}));
             let mut c = Choices::new(bytes);
             let cfg = Cfg::default();
-            let (sw, excluded_guards) = scoped::gen_workspace(&mut c, &cfg);
+            let (mut sw, excluded_guards) = scoped::gen_workspace(&mut c, &cfg);
+            if c.chance(60) {
+                scoped::add_shadowing_record_param(&mut sw);
+            }
             if sanity_parse_errors(&sw) > 0 {
                 ctx.excluded("generated workspace has syntax errors (generator)");
                 return Ok(());
